@@ -168,7 +168,12 @@ func GHASH(H []byte, A []byte, C []byte) (X []byte) {
 	Cn := make([]byte, u/8)
 	copy(Cn[:], C[(n-1)*BlockSize:])
 	Cn = append(Cn, zeros...)
-	copy(X[(m+n)*BlockSize:(m+n)*BlockSize+BlockSize], multiplication(addition(X[(m+n-1)*BlockSize:(m+n-1)*BlockSize+BlockSize], Cn), H))
+	if len(C) == 0 {
+		// no ciphertext block at all: nothing to absorb (the placeholder block must not cost a multiplication by H)
+		copy(X[(m+n)*BlockSize:(m+n)*BlockSize+BlockSize], X[(m+n-1)*BlockSize:(m+n-1)*BlockSize+BlockSize])
+	} else {
+		copy(X[(m+n)*BlockSize:(m+n)*BlockSize+BlockSize], multiplication(addition(X[(m+n-1)*BlockSize:(m+n-1)*BlockSize+BlockSize], Cn), H))
+	}
 
 	//i=m+n+1
 	var lenAB []byte
